@@ -173,7 +173,18 @@ func runC13(c *Ctx) {
 			ts := baseTime.Add(time.Duration(h*100+r) * time.Second)
 			dg := sha512.Sum384(img)
 			snap := c.Rng.Intn(6) == 0
+			before := snapshotFiles(filepath.Join(dir, "out"))
 			err := runEndorseMode(dir, img, cand, ow, ts, snap)
+			if !ow {
+				// no-overwrite clause, evaluated on the disk: every file that existed keeps its bytes
+				after := snapshotFiles(filepath.Join(dir, "out"))
+				for p, b := range before {
+					if strings.HasSuffix(p, ".binarypb") && after[p] != b {
+						c.Find("c13/hist/replaced-without-overwrite", "an existing endorsement file was replaced by a run without overwrite permission",
+							strings.Join(append(append([]string{}, runToks...), fmt.Sprintf("%s:%s:%d:%s:%s", cand, hx(dg[:]), ts.Unix(), b2s(ow), b2s(snap))), ";"))
+					}
+				}
+			}
 			// the model sees the canonical spelling of the candidate (computed here with path.Clean,
 			// independently of the code under test); the direct oracle below works on the disk
 			runToks = append(runToks, fmt.Sprintf("%s:%s:%d:%s:%s", cleanCand(cand), hx(dg[:]), ts.Unix(), b2s(ow), b2s(snap)))
@@ -214,6 +225,20 @@ func runC13(c *Ctx) {
 			nruns >= 2 && anyOK)
 		c.Count(fmt.Sprintf("hist/len%d", nruns))
 	}
+}
+
+// snapshotFiles maps every regular file under root (relative path) to its contents.
+func snapshotFiles(root string) map[string]string {
+	out := map[string]string{}
+	filepath.Walk(root, func(p string, info os.FileInfo, err error) error {
+		if err == nil && !info.IsDir() {
+			b, _ := os.ReadFile(p)
+			rel, _ := filepath.Rel(root, p)
+			out[rel] = string(b)
+		}
+		return nil
+	})
+	return out
 }
 
 func cleanCand(cand string) string {
